@@ -92,6 +92,41 @@ def seeded(check, only=None, tier="quick"):
     return run_changes(check, idx, only, tier, os.path.join(VERIF, "seeded", "LAST_RUN.json"))
 
 
+def benign(check, only=None, tier="quick"):
+    """The property-preserving changes under benign/: every named check must stay silent (exit 0)."""
+    bad = 0
+    rows = []
+    for d in sorted(glob.glob(os.path.join(VERIF, "benign", "*"))):
+        meta = os.path.join(d, "meta.json")
+        name = os.path.basename(d)
+        if not os.path.exists(meta) or (only and not any(o in name for o in only)):
+            continue
+        props = sorted(json.load(open(meta)).get("checks", {}))
+        scratch = tempfile.mkdtemp(prefix="verif-benign-")
+        try:
+            repo = os.path.join(scratch, "repo")
+            subprocess.run(["git", "clone", "-q", check.REPO, repo], check=True)
+            r = subprocess.run(["git", "-C", repo, "apply", os.path.join(d, "patch.diff")], capture_output=True, text=True)
+            if r.returncode != 0:
+                print("benign %s: does not apply to the current tree (skipped)" % name)
+                continue
+            for prop in props:
+                e = dict(os.environ)
+                e.update(VERIF_REPO=repo, VERIF_EVIDENCE_DIR=os.path.join(scratch, "evidence"), VERIF_REPLAY_DIR=os.path.join(scratch, "replays"))
+                t0 = time.time()
+                p = subprocess.run([os.path.join(VERIF, "check"), prop, tier], env=e, capture_output=True, text=True)
+                ok = p.returncode == 0
+                rows.append(dict(change=name, property=prop, exit=p.returncode, seconds=round(time.time() - t0, 1)))
+                print("benign %-16s %s: %s in %.0fs" % (name, prop, "quiet" if ok else "EXIT %d" % p.returncode, time.time() - t0))
+                if not ok:
+                    bad += 1
+                    print(p.stdout[-1200:], p.stderr[-800:])
+        finally:
+            shutil.rmtree(scratch, ignore_errors=True)
+    json.dump(rows, open(os.path.join(VERIF, "benign", "LAST_RUN.json"), "w"), indent=1)
+    return 2 if bad else 0
+
+
 def run_changes(check, idx, only, tier, report):
     failed = 0
     rows = []
@@ -152,5 +187,7 @@ def main(argv, check):
         return mutants(check, argv[1:] or None)
     if argv[0] == "selftest-seeded":
         return seeded(check, argv[1:] or None)
+    if argv[0] == "selftest-benign":
+        return benign(check, argv[1:] or None)
     print("unknown selftest")
     return 2
